@@ -115,10 +115,45 @@ Section C17.
             ps (fst (nwk_run E st ps)).
   Proof. exact (nwk_up_has_valid_tag E). Qed.
 
-  (** With nwkAllFresh set: in every history, the counters of the secured frames passed up
-      for one (key sequence number, sender) strictly increase, and start at or above the
-      counter stored before the history. *)
+  (** Freshness over histories of PDUs AND management operations (add_key of a new key, of an
+      already provisioned key — ignored, whatever sequence number it announces —, switching
+      nwkActiveKeySeqNumber, removing and re-adding a key), interleaved with frames, replays and
+      reorderings.  With nwkAllFresh set and distinct keys in the material set: for every key K
+      that the history never removes, the counters of the secured frames passed up under K for
+      one sender strictly increase.  ([haccepted] lists (key of the selected material, sender,
+      counter) of the frames passed up; induction over the history with the counter table of
+      (K, sender) as invariant.) *)
   Theorem C17_nwk_strictly_fresh :
+    forall hs items K,
+    n_all_fresh (fst hs) = true -> NoDup (map m_key (n_mats (fst hs))) -> never_removes K items ->
+    forall i j a c c', (i < j)%nat ->
+    let evs := filter (fun ev => bytes_eqb (fst (fst ev)) K) (haccepted E hs items) in
+    nth_error evs i = Some (K, a, c) -> nth_error evs j = Some (K, a, c') -> c < c'.
+  Proof. exact (nwk_strictly_fresh_mgmt E). Qed.
+
+  (** the freshness table of a (key, sender) pair survives every management operation that does
+      not remove that key; and the key set stays duplicate-free *)
+  Theorem C17_nwk_mgmt_preserves_table :
+    forall hs m K a, (forall K', m = RemoveKey K' -> K' <> K) ->
+    stored_k (fst (apply_mgmt hs m)) K a = stored_k (fst hs) K a.
+  Proof. exact mgmt_preserves_table. Qed.
+
+  Theorem C17_nwk_mgmt_preserves_nodup :
+    forall hs m, NoDup (map m_key (n_mats (fst hs))) -> NoDup (map m_key (n_mats (fst (apply_mgmt hs m)))).
+  Proof. exact mgmt_preserves_nodup. Qed.
+
+  (** authentication over the same histories: whatever goes up was accepted under a key
+      provisioned at that moment *)
+  Theorem C17_nwk_no_unauthenticated_up_mgmt :
+    forall items hs,
+    Forall (fun x => match x with
+                     | (HPdu p, pre, Some o) => authentic_up E (fst pre) p o
+                     | _ => True
+                     end) (htrace E hs items).
+  Proof. exact (htrace_authentic E). Qed.
+
+  (** frames-only histories, events keyed by the key sequence number (the earlier form) *)
+  Theorem C17_nwk_strictly_fresh_frames_only :
     forall st ps i j k a c c',
     n_all_fresh st = true -> (i < j)%nat ->
     nth_error (accepted E st ps) i = Some (k, a, c) ->
